@@ -91,7 +91,8 @@ def claimed():
 
 def evaluate(ids, props=None):
     base = os.path.join(V, 'seeded')
-    ids = ids or sorted(os.listdir(base))
+    ids = ids or sorted(d for d in os.listdir(base)
+                        if os.path.isdir(os.path.join(base, d)))
     props = props or claimed()
     rows = []
     for sid in ids:
